@@ -141,6 +141,22 @@ def _doc_job(job):
                 for out, S in ((o2, catref.selected(names, None)), (o3, catref.selected(None, exc))):
                     for sym, detail in compare_export(m, out, 'ekern', None, S)[:1]:
                         acc.violation(Viol('filter-reused-object', 'result-depends-on-an-earlier-call-with-the-same-object', case, None, detail))
+    # the options-OBJECT interface: one ExportOptions instance whose token_categories are reassigned between exports
+    if part == 2:
+        seqs = [(('CORE', 'STRUCTURAL'), ('BARLINES', 'STRUCTURAL', 'SIGNATURES')), ((None), ('NOTE_REST', 'HEADER')), (('PITCH', 'HEADER', 'SPINE_OPERATION'), None)]
+        for first, second in seqs:
+            try:
+                opts = kp.ExportOptions(kern_type=kp.Encoding.eKern, token_categories=TC.valid(include=None if first is None else {TC[x] for x in first}))
+                kp.Exporter().export_string(doc, opts)
+                opts.token_categories = TC.valid(include=None if second is None else {TC[x] for x in second})
+                out = kp.Exporter().export_string(doc, opts)
+                acc.count('transitions', 2)
+            except Exception as e:  # noqa
+                acc.violation(Viol('filter-options-object', 'raises', {'doc': name, 'text': text, 'first': first, 'second': second, 'seed': seed, 'tier': tier}, None, repr(e)[:100]))
+                continue
+            S = catref.selected(second, None)
+            for sym, detail in compare_export(m, out, 'ekern', None, S)[:1]:
+                acc.violation(Viol('filter-options-object', 'export-follows-the-categories-of-an-earlier-export', {'doc': name, 'text': text, 'first': first, 'second': second, 'seed': seed, 'tier': tier, 'options_object': True}, None, detail))
     # identity spellings
     if part == 0:
         for kw in ({'include': set(TC)}, {'include': list(TC)}, {'exclude': []}, {'exclude': set()}, {'include': set(TC), 'exclude': set()}, {'include': None, 'exclude': None}):
@@ -228,6 +244,11 @@ def run(ctx):
 
 def replay(case):
     acc = Acc()
+    if case.get('options_object'):
+        fam = family(case.get('tier', 'quick'), case.get('seed', 0))
+        di = [m.text() for _, m in fam].index(case['text'])
+        d = _doc_job((di, case.get('tier', 'quick'), case.get('seed', 0), 2, 10 ** 9))
+        return [v for v in d.viol if v['cls'] == 'filter-options-object']
     inc, exc = case.get('include'), case.get('exclude') or ()
     if 'text' not in case:
         d = _selset_job((0, 705, True))
